@@ -187,6 +187,12 @@ func c08One(c *Ctx, g, gsteps *Group, kds []mKeyDesc, layout string, idx int) {
 		}
 	}
 	key["layout_class"] = cls
+	c08EmitPrepared(c, g, gsteps, in, kds, layout, markers, key)
+}
+
+// c08EmitPrepared runs one prepared response case and records it for check_c08.
+func c08EmitPrepared(c *Ctx, g, gsteps *Group, in c06Input, kds []mKeyDesc, layout string, markers []string, key map[string]string) {
+	cls := key["layout_class"]
 	res := runResponse(c, in)
 	obs := "O6Err"
 	var specOK *bool
@@ -229,6 +235,9 @@ func c08One(c *Ctx, g, gsteps *Group, kds []mKeyDesc, layout string, idx int) {
 		}
 	default:
 		key["emitted"] = "nothing"
+	}
+	if res.kind == "form" {
+		problems = append(problems, pageProblems(res.html, in.foreignMarkers)...)
 	}
 	if len(problems) > 0 {
 		specOK = Bptr(false)
@@ -492,6 +501,18 @@ func runC08(c *Ctx) {
 		kds, layout := genKDLayout(c.Rng, choices)
 		add(kds, layout)
 	}
+	// histories on one long-lived IdentityProvider / registry
+	gh := []*Group{c.Group("hist0", []string{"IdPModel"}, "c06case", "check_c08"), c.Group("hist1", []string{"IdPModel"}, "c06case", "check_c08")}
+	hn := 0
+	rounds := 2
+	if c.Thorough() {
+		rounds = 20
+	}
+	runHistories(c, func(in c06Input, kds []mKeyDesc, markers []string, key map[string]string) {
+		key["layout"], key["layout_class"] = "history", "other"
+		c08EmitPrepared(c, gh[hn%2], nil, in, kds, "history", markers, key)
+		hn++
+	}, rounds)
 	for k := 0; k < 5; k++ {
 		c08Fresh(c, gf)
 	}
